@@ -615,6 +615,7 @@ Variables sym m d y ty sold : text.
 Variable gs : list gp.
 Hypothesis Hsym : sym <> [] /\ forallb is_updot sym = true /\ forallb is_symc sym = true.
 Hypothesis Hdate : digits m /\ digits d /\ digits y /\ m <> [] /\ d <> [] /\ y <> [].
+Hypothesis Hpd : parse_mdy (m, d, y) = Ok (date_ord (m, d, y)).
 Hypothesis Hty : forallb is_typec ty = true /\ ty <> [] /\ hd_in nonspace ty = true.
 Hypothesis Hsold : cintparts sold.
 Hypothesis Hgs : Forall gp_ok gs /\ gs <> [].
@@ -742,4 +743,241 @@ Proof.
     - intros i gr R. apply blk_clear_details.
     - destruct st; vm_compute; reflexivity. }
   rewrite S2. cbn [obind]. unfold eso_body, eso_tl, BLK. rewrite <- !app_assoc. reflexivity.
+Qed.
+
+Lemma eso_shares_sold st : get1_dec m_eso_shares_sold (eso_header st) = Ok (dval sold).
+Proof.
+  destruct Hty as (T1 & T2 & T3), Hsym as (? & ? & ?).
+  pose proof (cint_nonnil _ Hsold) as Ns. pose proof Hsold as (S1 & S2 & S3).
+  assert (Hns : forallb nonspace sold = true).
+  { apply (forallb_imp is_dc nonspace); [|exact S2].
+    intros c Hc. unfold nonspace. apply negb_true_iff. unfold is_dc in Hc. apply orb_true_iff in Hc. destruct Hc as [Hc|Hc];
+      [apply digit_nonspace; exact Hc|unfold is_comma in Hc; apply N.eqb_eq in Hc; subst c; reflexivity]. }
+  assert (F : find m_eso_shares_sold (eso_header st) = Some (sold, e4pre st)).
+  { unfold eso_header, eso_header_segs.
+    replace (flat [SL (sty st eso0_0 eso1_0); SF c_updot sym; SL (sty st eso0_1 eso1_1); SF c_updot sym; SL (sty st eso0_2 eso1_2);
+                  SF c_type ty; SL (sty st eso0_3 eso1_3); SF c_dc sold] ++ e4pre st)
+      with (flat (eso_head st) ++ (ty ++ sty st eso0_3 eso1_3 ++ sold ++ e4pre st))
+      by (unfold eso_head; cbn [flat seg_text app]; rewrite <- ?app_assoc, ?app_nil_r; cbn [app]; reflexivity).
+    rewrite <- (find_seek m_eso_shares_sold _ g_eso_shares_sold (eso_head st)).
+    2:{ unfold eso_head. repeat constructor; auto. }
+    assert (E0 : seek (glit k_shares_sold) true (eso_head st) = []) by (destruct st; vm_compute; reflexivity).
+    rewrite E0. cbn [flat app].
+    assert (E3 : sty st eso0_3 eso1_3 = 32 :: 82 :: skipn 2 (sty st eso0_3 eso1_3)) by (destruct st; reflexivity).
+    rewrite E3 at 1. cbn [app]. rewrite find_shares_sold_skip_type by exact T1.
+    replace (32 :: 82 :: skipn 2 (sty st eso0_3 eso1_3) ++ sold ++ e4pre st)
+      with (flat [SL (sty st eso0_3 eso1_3); SF c_dc sold; SL (e4pre st)])
+      by (cbn [flat seg_text]; rewrite E3 at 1; rewrite app_nil_r; reflexivity).
+    assert (Hok : Forall seg_ok [SL (sty st eso0_3 eso1_3); SF c_dc sold; SL (e4pre st)]) by (repeat constructor; auto).
+    destruct st.
+    - seek_with g_eso_shares_sold Hok. apply find_hit. unfold m_eso_shares_sold, lit, k_shares_sold.
+      cbn [flat seg_text app strip_prefix N.eqb Pos.eqb obind]. rewrite sp1_sp. cbn [obind].
+      rewrite (skip_nonspace_fld sold) by auto.
+      rewrite run1_dcd_cint by (auto; reflexivity). reflexivity.
+    - seek_with g_eso_shares_sold Hok. apply find_hit. unfold m_eso_shares_sold, lit, k_shares_sold.
+      cbn [flat seg_text app strip_prefix N.eqb Pos.eqb obind]. rewrite sp1_sp. cbn [obind].
+      rewrite (skip_nonspace_fld sold) by auto.
+      rewrite run1_dcd_cint by (auto; reflexivity). reflexivity. }
+  unfold get1_dec, get1. rewrite F. cbn [bind]. apply parse_large_cint. exact Hsold.
+Qed.
+
+(* ------------------------------------------------------------------ parse_eso_data on the document *)
+Definition grant_of (gr : gp) : eso_grant :=
+  {| g_num := digits_value (gp_num gr); g_fmv := dval (gp_fa gr ++ 46 :: gp_fb gr); g_shares := dval (gp_sh gr);
+     g_sale := dval (gp_sa gr ++ 46 :: gp_sb gr); g_fee := dval (gp_ea gr ++ 46 :: gp_eb gr) |}.
+
+Lemma map_res_parse {T} (f : T -> text) (l : list T) :
+  Forall (fun x => parse_large (f x) = Ok (dval (f x))) l ->
+  map_res parse_large (map f l) = Ok (map (fun x => dval (f x)) l).
+Proof.
+  induction 1 as [|x l Hx Hl IH]; [reflexivity|]. cbn [map map_res]. rewrite Hx. cbn [bind]. rewrite IH. reflexivity.
+Qed.
+Lemma u64_num gr : gp_ok gr -> u64_or_zero (gp_num gr) = digits_value (gp_num gr).
+Proof.
+  intros (N1 & N2 & N3 & _). unfold u64_or_zero.
+  pose proof (digits_value_bound (gp_num gr) N1 0) as H. unfold digits_value.
+  assert (H10 : 10 ^ N.of_nat (length (gp_num gr)) <= 10 ^ 19) by (apply N.pow_le_mono_r; lia).
+  change (10 ^ 19) with 10000000000000000000 in H10.
+  destruct (N.leb_spec (fold_left (fun acc c => acc * 10 + digit_val c) (gp_num gr) 0) 18446744073709551615); [reflexivity|lia].
+Qed.
+Lemma zip_grants_map gl : forall idx, length idx = length gl -> Forall gp_ok gl ->
+  zip_grants idx (map u64_or_zero (map gp_num gl)) (map (fun gr => dval (gp_fa gr ++ 46 :: gp_fb gr)) gl)
+    (map (fun gr => dval (gp_sh gr)) gl) (map (fun gr => dval (gp_sa gr ++ 46 :: gp_sb gr)) gl)
+    (map (fun gr => dval (gp_ea gr ++ 46 :: gp_eb gr)) gl) = map grant_of gl.
+Proof.
+  induction gl as [|gr gl IH]; intros idx Hl HF; [destruct idx; reflexivity|].
+  destruct idx as [|i idx]; [discriminate|]. inversion HF; subst. cbn [map zip_grants].
+  rewrite IH by (auto; cbn in Hl; lia). unfold grant_of at 2. rewrite u64_num by assumption. reflexivity.
+Qed.
+
+Lemma search_rows_ok key vp (f : gp -> text) st :
+  all_matches (m_row key vp) (eso_body st gs) = map f gs -> search_for_rows key vp (eso_body st gs) = Ok (map f gs).
+Proof.
+  intros H. unfold search_for_rows. rewrite H. destruct Hgs as [_ G2]. destruct gs; [congruence|reflexivity].
+Qed.
+
+Lemma eso_data st :
+  parse_eso_data (flat (eso_doc st))
+  = Ok {| e_sym := sym; e_type := ty; e_date := date_ord (m, d, y); e_sold := dval sold; e_grants := map grant_of gs |}.
+Proof.
+  intros. destruct Hgs as [G1 G2]. unfold parse_eso_data. rewrite eso_split_doc.
+  rewrite (search_rows_ok _ _ gp_num st (body_nums st gs G1)). cbn [bind].
+  unfold search_for_dec_rows.
+  rewrite (search_rows_ok _ _ (fun gr => gp_fa gr ++ 46 :: gp_fb gr) st (body_fmvs st gs G1)). cbn [bind].
+  rewrite (map_res_parse (fun gr => gp_fa gr ++ 46 :: gp_fb gr) gs).
+  2:{ eapply Forall_impl; [|exact G1]. intros gr (N1 & N2 & N3 & F & S & Sa & E). apply parse_large_cdec; assumption. }
+  cbn [bind].
+  rewrite (search_rows_ok _ _ gp_sh st (body_shares st gs G1)). cbn [bind].
+  rewrite (map_res_parse gp_sh gs).
+  2:{ eapply Forall_impl; [|exact G1]. intros gr (N1 & N2 & N3 & F & S & Sa & E). apply parse_large_cint; assumption. }
+  cbn [bind].
+  rewrite (search_rows_ok _ _ (fun gr => gp_sa gr ++ 46 :: gp_sb gr) st (body_sales st gs G1)). cbn [bind].
+  rewrite (map_res_parse (fun gr => gp_sa gr ++ 46 :: gp_sb gr) gs).
+  2:{ eapply Forall_impl; [|exact G1]. intros gr (N1 & N2 & N3 & F & S & Sa & E). apply parse_large_cdec; assumption. }
+  cbn [bind].
+  rewrite (search_rows_ok _ _ (fun gr => gp_ea gr ++ 46 :: gp_eb gr) st (body_fees st gs G1)). cbn [bind].
+  rewrite (map_res_parse (fun gr => gp_ea gr ++ 46 :: gp_eb gr) gs).
+  2:{ eapply Forall_impl; [|exact G1]. intros gr (N1 & N2 & N3 & F & S & Sa & E). apply parse_large_cdec; assumption. }
+  cbn [bind].
+  rewrite !map_length, (body_idx st gs G1). unfold rows_complete. rewrite !Nat.eqb_refl. cbn [andb negb].
+  unfold parse_common.
+  destruct (eso_employee st) as [x1 E1]. rewrite E1. cbn [bind].
+  destruct (eso_account st) as [x2 E2]. rewrite E2. cbn [bind].
+  rewrite eso_symbol. cbn [bind].
+  destruct (eso_type st) as [x3 E3]. rewrite E3. cbn [bind].
+  destruct (eso_date st) as [x4 E4]. rewrite E4. cbn [bind].
+  destruct Hdate as (D1 & D2 & D3 & D4 & D5 & D6).
+  rewrite Hpd. cbn [bind]. rewrite eso_shares_sold. cbn [bind].
+  rewrite zip_grants_map; [reflexivity|apply (body_idx st gs G1)|exact G1].
+Qed.
+
+Definition gl_of (gr : gp) : grant_lay :=
+  {| gl_num := gp_num gr; gl_fmv := gp_fa gr ++ 46 :: gp_fb gr; gl_shares := gp_sh gr;
+     gl_sale := gp_sa gr ++ 46 :: gp_sb gr; gl_fee := gp_ea gr ++ 46 :: gp_eb gr |}.
+Definition eso_lay_of : eso_lay :=
+  {| ol_sym := sym; ol_date := (m, d, y); ol_type := ty; ol_sold := sold; ol_grants := map gl_of gs |}.
+
+Lemma fee_sum_ok : forall l acc, fees_ok acc (map (fun gr => dval (gl_fee (gl_of gr))) l) = true ->
+  fee_sum acc (map grant_of l) = Ok (dec_sum_from acc (map (fun gr => dval (gl_fee (gl_of gr))) l)).
+Proof.
+  induction l as [|gr l IH]; intros acc H; [reflexivity|]. cbn [map fees_ok fee_sum dec_sum_from] in *.
+  change (g_fee (grant_of gr)) with (dval (gl_fee (gl_of gr))).
+  unfold dec_sum. destruct (a_add dec acc (dval (gl_fee (gl_of gr)))) as [v| |]; try discriminate. cbn [bind]. apply IH. exact H.
+Qed.
+
+Lemma eso_entries_ok e S fees : forall l,
+  (forall gr, In gr l -> g_sale (grant_of gr) = S) ->
+  e_sym e = sym -> e_date e = date_ord (m, d, y) -> e_sold e = dval sold -> e_type e = ty ->
+  eso_entries e S fees (map grant_of l) = Ok (eso_records_aux eso_lay_of fees (map gl_of l)).
+Proof.
+  induction l as [|gr l IH]; intros HS E1 E2 E3 E4; [reflexivity|].
+  cbn [map eso_entries eso_records_aux].
+  assert (Q : Qceqb (g_sale (grant_of gr)) S = true) by (apply Qceqb_true; apply HS; left; reflexivity). rewrite Q. cbn [negb].
+  rewrite IH; auto; [|intros g Hg; apply HS; right; exact Hg]. cbn [bind].
+  rewrite E1, E2, E3, E4. destruct l; reflexivity.
+Qed.
+
+Variable S : Qc.
+Hypothesis Hsales : forall gr, In gr gs -> Qceqb (dval (gl_sale (gl_of gr))) S = true.
+Hypothesis Hfees : fees_ok 0%Qc (map (fun gr => dval (gl_fee (gl_of gr))) gs) = true.
+
+Lemma eso_parse st : parse_eso (flat (eso_doc st)) = Ok (eso_records eso_lay_of).
+Proof.
+  unfold parse_eso. rewrite eso_data. cbn [bind e_grants].
+  destruct Hgs as [G1 G2].
+  assert (HS : forall gr, In gr gs -> g_sale (grant_of gr) = S).
+  { intros gr Hin. apply Qceqb_true. exact (Hsales gr Hin). }
+  destruct (rev (map grant_of gs)) as [|lastg r] eqn:ER.
+  { apply (f_equal (@length eso_grant)) in ER. rewrite rev_length, map_length in ER. cbn in ER.
+    apply length_zero_iff_nil in ER. congruence. }
+  assert (HL : g_sale lastg = S).
+  { assert (Hin : In lastg (map grant_of gs)) by (apply in_rev; rewrite ER; left; reflexivity).
+    apply in_map_iff in Hin. destruct Hin as (gr & <- & Hgr). apply HS. exact Hgr. }
+  rewrite (fee_sum_ok gs 0%Qc Hfees). cbn [bind]. rewrite HL.
+  rewrite (eso_entries_ok _ S _ gs HS); try reflexivity.
+  unfold eso_records. cbn [ol_grants eso_lay_of]. rewrite map_map. reflexivity.
+Qed.
+
+Lemma render_grants_blocks st : forall l i, render_grants st i (map gl_of l) = blocks (gblk st) i l.
+Proof.
+  induction l as [|gr l IH]; intros i; [reflexivity|]. cbn [map render_grants blocks]. rewrite IH. f_equal.
+  unfold render_grant, gblk, grant_segs, grant_segs', cdecseg, gl_of.
+  cbn [gl_num gl_fmv gl_shares gl_sale gl_fee flat seg_text app]. rewrite <- ?app_assoc, ?app_nil_r. cbn [app]. reflexivity.
+Qed.
+Lemma render_eso_doc st : render_eso st eso_lay_of = flat (eso_doc st).
+Proof.
+  unfold render_eso, eso_lay_of, eso_doc, eso_dtail, dateseg, date_text, BLK.
+  cbn [ol_sym ol_date ol_type ol_sold ol_grants app flat seg_text]. rewrite render_grants_blocks.
+  norm_apps. rewrite ?app_nil_r. reflexivity.
+Qed.
+End ESO.
+
+(* ------------------------------------------------------------------ the theorem *)
+Lemma is_cdec_span t : is_cdec t = true ->
+  exists a b, span is_dc t = (a, 46 :: b) /\ t = a ++ 46 :: b /\ cdecparts a b.
+Proof.
+  intros H. pose proof H as H0. unfold is_cdec in H. destruct (span is_dc t) as [a r] eqn:E.
+  destruct (span_spec _ _ _ _ E) as [H1 H2]. destruct r as [|c b]; [discriminate|].
+  destruct (c =? 46) eqn:Ec.
+  2:{ exfalso. destruct c as [|p]; [discriminate|]. repeat (destruct p as [p|p|]; try discriminate). }
+  apply N.eqb_eq in Ec. subst c. exists a, b. split; [reflexivity|]. split; [exact H1|].
+  repeat (apply andb_true_iff in H; destruct H as [H ?]). repeat split; auto.
+  - intros ->. discriminate.
+  - apply Nat.leb_le. assumption.
+Qed.
+
+Definition gp_of (g : grant_lay) : gp :=
+  let '(fa, r1) := span is_dc (gl_fmv g) in
+  let '(sa, r2) := span is_dc (gl_sale g) in
+  let '(ea, r3) := span is_dc (gl_fee g) in
+  {| gp_num := gl_num g; gp_fa := fa; gp_fb := tl r1; gp_sh := gl_shares g; gp_sa := sa; gp_sb := tl r2;
+     gp_ea := ea; gp_eb := tl r3 |}.
+
+Lemma grant_ok_spec S g : grant_ok S g = true ->
+  gp_ok (gp_of g) /\ gl_of (gp_of g) = g /\ Qceqb (dval (gl_sale g)) S = true.
+Proof.
+  unfold grant_ok. intros H.
+  apply andb_true_iff in H; destruct H as [H Wq]. apply andb_true_iff in H; destruct H as [H Wfee].
+  apply andb_true_iff in H; destruct H as [H Wsale]. apply andb_true_iff in H; destruct H as [H Wsh].
+  apply andb_true_iff in H; destruct H as [H Wfmv]. apply andb_true_iff in H; destruct H as [Wnum Wlen].
+  destruct (is_cdec_span _ Wfmv) as (fa & fb & E1 & T1 & C1). destruct (is_cdec_span _ Wsale) as (sa & sb & E2 & T2 & C2).
+  destruct (is_cdec_span _ Wfee) as (ea & eb & E3 & T3 & C3). destruct (num_ok_spec _ Wnum) as [N1 N2].
+  apply Nat.leb_le in Wlen. pose proof (is_cint_spec _ Wsh) as CS.
+  unfold gp_of. rewrite E1, E2, E3. cbn [tl]. split; [|split; [|exact Wq]].
+  - unfold gp_ok. cbn [gp_num gp_fa gp_fb gp_sh gp_sa gp_sb gp_ea gp_eb]. repeat split; auto; try apply C1; try apply C2; try apply C3; try apply CS.
+  - unfold gl_of. cbn [gp_num gp_fa gp_fb gp_sh gp_sa gp_sb gp_ea gp_eb]. rewrite <- T1, <- T2, <- T3. destruct g; reflexivity.
+Qed.
+
+Theorem eso_text_roundtrip st r : wf_eso r = true -> parse_eso (render_eso st r) = Ok (eso_records r).
+Proof.
+  destruct r as [sym [[m d] y] ty sold gl]. unfold wf_eso. cbn [ol_sym ol_date ol_type ol_sold ol_grants]. intros H.
+  apply andb_true_iff in H; destruct H as [H Wfees]. apply andb_true_iff in H; destruct H as [H Wgr].
+  apply andb_true_iff in H; destruct H as [H Wsold]. apply andb_true_iff in H; destruct H as [H Wty].
+  apply andb_true_iff in H; destruct H as [Wsym Wdate].
+  destruct gl as [|g0 gl0] eqn:EGL; [discriminate|]. rewrite <- EGL in *.
+  set (S := dval (gl_sale g0)) in *.
+  assert (HG : Forall (fun g => gp_ok (gp_of g) /\ gl_of (gp_of g) = g /\ Qceqb (dval (gl_sale g)) S = true) gl).
+  { apply Forall_forall. intros g Hg. apply grant_ok_spec. rewrite forallb_forall in Wgr. exact (Wgr g Hg). }
+  assert (EM : map gl_of (map gp_of gl) = gl).
+  { rewrite map_map. rewrite <- (map_id gl) at 2. apply map_ext_in. intros g Hg. rewrite Forall_forall in HG. apply (HG g Hg). }
+  destruct (date_ok_spec _ _ _ Wdate) as (D1 & D2 & D3 & D4 & D5 & D6 & Hpd).
+  pose proof (sym_ok_spec _ Wsym) as Hsym.
+  unfold type_ok in Wty. apply andb_true_iff in Wty; destruct Wty as [Wty T4].
+  apply andb_true_iff in Wty; destruct Wty as [Wty T3]. apply andb_true_iff in Wty; destruct Wty as [T1 T2].
+  apply Nat.leb_le in T2. assert (Nt : ty <> []) by (intros ->; cbn in T2; lia).
+  pose proof (eso_parse sym m d y ty sold (map gp_of gl) Hsym (conj D1 (conj D2 (conj D3 (conj D4 (conj D5 D6))))) Hpd
+                (conj T1 (conj Nt T3)) (is_cint_spec _ Wsold)) as P.
+  assert (G : Forall gp_ok (map gp_of gl) /\ map gp_of gl <> []).
+  { split; [|rewrite EGL; discriminate]. apply Forall_forall. intros x Hx. apply in_map_iff in Hx. destruct Hx as (g & <- & Hg).
+    rewrite Forall_forall in HG. apply (HG g Hg). }
+  specialize (P G S).
+  assert (HSa : forall gr, In gr (map gp_of gl) -> Qceqb (dval (gl_sale (gl_of gr))) S = true).
+  { intros gr Hx. apply in_map_iff in Hx. destruct Hx as (g & <- & Hg). rewrite Forall_forall in HG.
+    destruct (HG g Hg) as (_ & E & Q). rewrite E. exact Q. }
+  assert (HF : fees_ok 0%Qc (map (fun gr => dval (gl_fee (gl_of gr))) (map gp_of gl)) = true).
+  { rewrite map_map. erewrite map_ext_in; [exact Wfees|]. intros g Hg. cbn beta. rewrite Forall_forall in HG.
+    destruct (HG g Hg) as (_ & E & _). rewrite E. reflexivity. }
+  specialize (P HSa HF st).
+  pose proof (render_eso_doc sym m d y ty sold (map gp_of gl) st) as RD.
+  unfold eso_lay_of in P, RD. rewrite EM in P, RD. rewrite RD. exact P.
 Qed.
